@@ -116,6 +116,29 @@ def run(tier):
                     srcs[fn_] = okv
             res.require(okb and all(srcs.values()), 'C20:%s:deserialize:%s:construct' % (short, nm), '%s does not build %s from exactly the values read: %s' % (nm, short, {k: v for k, v in srcs.items() if not v}),
                         bfx.body.path, 'SAME-VALUE(read values -> fields)', instance='%s::%s builds every field from the value read' % (short, nm))
+        # the value of every entry is read (and written) AS THE FIELD'S OWN TYPE: `serde(with / deserialize_with / serialize_with)` puts a
+        # private wrapper type between the stored entry and the field, and with it arbitrary code (a "compatibility shim" that maps a stored
+        # Some(0) to None rewinds the downlink counter of a restored session)
+        ftys = sorted(f['ty'] for f in adt['variants'][0]['fields'])
+        for bfx, nm, suffixes in ((bfm, 'visit_map', ('MapAccess::next_value',)), (c.pf.bf(vs[0]), 'visit_seq', ('SeqAccess::next_element',))):
+            got = []
+            for bb, t in bfx.calls():
+                if callee_name(t).endswith(suffixes) and t.func is not None and t.func.const:
+                    ga = [g for g in (t.func.const.get('ga') or []) if not g.startswith("'")]
+                    if ga and not ga[-1].endswith('IgnoredAny'):
+                        got.append(ga[-1])
+            res.require(sorted(got) == ftys, 'C20:%s:deserialize:%s:entry-types' % (short, nm),
+                        '%s reads entries as %s; the fields are %s: a field restored through another type (serde deserialize_with / with) does not have to come back as it was stored' % (
+                            nm, sorted(set(got) - set(ftys)) or sorted(got), sorted(set(ftys) - set(got)) or ftys), bfx.body.path,
+                        'TYPE(entry read as the field type)', instance='%s::%s reads every entry as the type of its field' % (short, nm))
+        got = []
+        for bb, t in bf.calls():
+            if callee_name(t).endswith('SerializeStruct::serialize_field') and t.func is not None and t.func.const:
+                ga = [g for g in (t.func.const.get('ga') or []) if not g.startswith("'")]
+                if ga:
+                    got.append(ga[-1])
+        res.require(sorted(got) == ftys, 'C20:%s:serialize:entry-types' % short, 'serialize writes entries as %s; the fields are %s (serde serialize_with / with)' % (sorted(got), ftys), bf.body.path,
+                    'TYPE(entry written as the field type)', instance='%s: every entry is written as the type of its field' % short)
         # field-name tables: FIELDS const and the identifier visitor
         fb = [b for p_, bl in prog.by_short.items() for b in bl if ('for ' + ty + '>') in p_ and 'deserialize::FIELDS' in p_]
         names = []
